@@ -317,7 +317,11 @@ def check_model_one(name, n, tabs, acc):
     if len(net.inputs) != n or len(net.outputs) != len(tabs):
         acc.violation('model-lookup/shape', case, '')
         return
-    got = net.out_tables()
+    try:
+        got = net.out_tables()
+    except Exception as e:  # noqa: BLE001
+        acc.violation('model-lookup/not-evaluable', case, repr(e)[:200])
+        return
     for v, t in zip(got, tabs):
         s = refmodel.tt_str(v, n)
         if any(ch != '*' and ch != sc for ch, sc in zip(t, s)):
